@@ -34,7 +34,7 @@ M = [
  ("xattr-ool-reference-off", "lib/sqfs/src/xattr/xattr_writer_flush.c", "ool_locations[val_idx] = ref;", "ool_locations[val_idx] = ref + 1;"),
  ("xattr-ool-threshold-ge", "lib/sqfs/src/xattr/xattr_writer_flush.c", "return (strlen(val_str) / 2) > sizeof(sqfs_u64);", "return (strlen(val_str) / 2) >= sizeof(sqfs_u64);"),
  ("xattr-locations-index-stuck", "lib/sqfs/src/xattr/xattr_writer_flush.c", "			locations[i++] = block;", "			locations[i] = block;"),
- ("xattr-locations-bound-removed", "lib/sqfs/src/xattr/xattr_writer_flush.c", "if (block != locations[i - 1] && i < loc_count)", "if (block != locations[i - 1])", "patched"),
+ ("xattr-locations-bound-removed", "lib/sqfs/src/xattr/xattr_writer_flush.c", "if (block != locations[i - 1] && i < loc_count)", "if (block != locations[i - 1])"),
  ("frontend-full-last-block-kept", "lib/sqfs/src/block_processor/frontend.c",
   "	if (proc->blk_current->size == proc->max_block_size) {\n		err = enqueue_block(proc, proc->blk_current);\n		proc->blk_current = NULL;\n\n		if (err)\n			return err;\n	}\n\n	return 0;",
   "	return 0;"),
